@@ -4,6 +4,7 @@
 # /verif (rsync, build products included), so that neither /repo nor /verif (coq/Gen traces, evidence, .vo files) is
 # touched by a run against mutated code. Replay files of the run are copied to /verif/_work/replay_seed/.
 set -u
+V=$(cd "$(dirname "$0")/.." && pwd)    # the /verif tree this tool belongs to (a helper clone works too)
 src=$1; pid=$2; tier=${3:-quick}
 [ -d "$src" ] && patch=$src/patch.diff || patch=$src
 patch=$(readlink -f "$patch")
@@ -19,11 +20,11 @@ if ! ( cd "$wt" && git apply "$patch" ) 2>/dev/null; then
   ( cd "$wt" && git apply "$patch" ) || { echo "patch does not apply"; git -C /repo worktree remove --force "$wt"; exit 2; }
   echo "NOTE: applied on top of $base (does not apply to the current /repo HEAD)"
 fi
-mkdir -p "$vc" && rsync -a --delete --exclude .git --exclude _work/replay --exclude _work/files /verif/ "$vc"/
+mkdir -p "$vc" && rsync -a --delete --exclude .git --exclude _work/replay --exclude _work/files "$V"/ "$vc"/
 # the copy must start from the committed (unchanged-tree) traces
-for f in $(git -C /verif ls-files coq/Gen); do git -C /verif show HEAD:$f > "$vc/$f"; done
+for f in $(git -C "$V" ls-files coq/Gen); do git -C "$V" show HEAD:$f > "$vc/$f"; done
 ( cd "$vc" && GBASIS_REPO=$wt ./check "$pid" --tier "$tier" 2>&1 | grep -v "^WARNING conda" | tail -${TAILN:-4}; exit ${PIPESTATUS[0]} )
 rc=$?
-mkdir -p /verif/_work/replay_seed && cp -f "$vc"/_work/replay/*.json /verif/_work/replay_seed/ 2>/dev/null
+mkdir -p "$V"/_work/replay_seed && cp -f "$vc"/_work/replay/*.json "$V"/_work/replay_seed/ 2>/dev/null
 git -C /repo worktree remove --force "$wt"; rm -rf "$vc"
 echo "check exit=$rc (1 = detected)"
